@@ -69,9 +69,19 @@ pub struct SynthTx {
     pub mint: Option<Groups>,
     /// key seeds (Alonzo and later)
     pub required_signers: Option<Vec<u8>>,
+    /// stake-key certificates (Shelley-MA): registration / deregistration of the stake credential of a key
+    pub certs: Vec<SCert>,
     /// `None`: every input key, every minting-policy key and every required signer signs once;
     /// `Some(list)`: exactly these `(vkey, signature)` pairs, whatever they are
     pub witnesses: Option<Vec<(Vec<u8>, Vec<u8>)>>,
+}
+
+#[derive(Clone, Copy, Debug, PartialEq, Eq)]
+pub enum SCert {
+    /// `stake_registration = (0, [0, keyhash])`
+    Reg(u8),
+    /// `stake_deregistration = (1, [0, keyhash])`
+    Dereg(u8),
 }
 
 fn put_groups(e: &mut Encoder<Vec<u8>>, g: &Groups) {
@@ -113,7 +123,7 @@ pub fn body(t: &SynthTx, network: u8) -> Vec<u8> {
     let conway = t.era == Era::Conway;
     let post = matches!(t.era, Era::Babbage | Era::Conway);
     let mut e = Encoder::new(Vec::new());
-    e.map(4 + t.mint.is_some() as u64 + t.required_signers.is_some() as u64).unwrap();
+    e.map(4 + t.mint.is_some() as u64 + t.required_signers.is_some() as u64 + !t.certs.is_empty() as u64).unwrap();
     e.u8(0).unwrap();
     if conway { e.tag(Tag::new(258)).unwrap(); }
     e.array(t.inputs.len() as u64).unwrap();
@@ -123,6 +133,13 @@ pub fn body(t: &SynthTx, network: u8) -> Vec<u8> {
     for o in &t.outputs { put_output(&mut e, &out_addr, o, post); }
     e.u8(2).unwrap().u64(t.fee).unwrap();
     e.u8(3).unwrap().u64(u64::MAX).unwrap();
+    if !t.certs.is_empty() {
+        e.u8(4).unwrap().array(t.certs.len() as u64).unwrap();
+        for c in &t.certs {
+            let (tag, seed) = match c { SCert::Reg(s) => (0u8, *s), SCert::Dereg(s) => (1, *s) };
+            e.array(2).unwrap().u8(tag).unwrap().array(2).unwrap().u8(0).unwrap().bytes(key(seed).hash.as_ref()).unwrap();
+        }
+    }
     if let Some(m) = &t.mint { e.u8(9).unwrap(); put_groups(&mut e, m); }
     if let Some(r) = &t.required_signers {
         e.u8(14).unwrap();
